@@ -167,7 +167,9 @@ impl Memory {
                     let bounded_size = size.min(self.max_single_operation_bytes);
 
                     // Step by 32 bytes at once as each "write" happens at 32-byte alignment
-                    for word_offset in (offset..offset + bounded_size).step_by(32) {
+                    // The offset is a constant chosen by the bytecode, so the end of the range
+                    // must not be allowed to overflow
+                    for word_offset in (offset..offset.saturating_add(bounded_size)).step_by(32) {
                         values.push(
                             Self::get_or_initialize(&mut self.constant_offsets, &word_offset)
                                 .clone(),
